@@ -21,6 +21,8 @@
 //   idle V / wake V    wait inside the current arena's dispatch loop (stealing, mailbox, streams) until another thread executes `wake V`
 //   spinmand A B       spin until arena A's mandatory flag reads B (white-box)
 //   obs K A / unobs K  activate observer K on arena A (A = -1: global, i.e. the calling thread's arena) / observe(false)
+//   lim N A K { .. }   lower max_allowed_parallelism to N for the block; the block (and the BUDGET monitor for N) starts when arena A has <= N-1
+//                      active workers or its enqueued backlog has drained to K;   spinworkers A n   spin until arena A has >= n active workers
 //   quiesce A          wait until arena A is at rest and check the white-box request counters
 //   mk A n r / rm A    create / destroy arena A                   work              a few scheduling points
 //
@@ -125,6 +127,9 @@ static Ghost& me() { int t = verif::self(); return G_[t < 0 || t >= MAXT ? 0 : t
 static long g_next_region = 1;
 static std::map<long, std::intptr_t> g_region_tag;      // ghost region -> the isolation word isolate_within_arena installed for it
 static int g_workers_in_bodies = 0, g_max_workers_in_bodies = 0;
+static int g_cur_limit = 0;                 // a limit lowered in mid-run by `lim` (0: none): BUDGET then also checks it for bodies started since
+static int g_budget_epoch = 0;              // bumped when the lowered limit has had time to take effect
+static int g_workers_in_new_bodies = 0;     // workers inside bodies that started in the current budget epoch
 static std::map<arena*, std::map<int, int>> g_idx;      // arena -> current_thread_index -> thread id, for threads inside bodies
 static long g_bodies = 0, g_iso_checked = 0, g_worker_bodies = 0, g_pending = 0, g_enq_done = 0;
 static std::atomic<int> g_ev[MAXV];
@@ -176,6 +181,14 @@ template <class F> static void body(long region, F&& f) {
     }
     // BUDGET
     bool first_body = (g.body_depth++ == 0);
+    const int my_epoch = g_budget_epoch;
+    if (worker && first_body && g_cur_limit >= 2) {
+        // a limit lowered in mid-run (`lim`): only work that STARTS after the recall has had time to take effect is counted
+        ++g_workers_in_new_bodies;
+        if (g_workers_in_new_bodies > g_cur_limit - 1)
+            viol("BUDGET " + std::to_string(g_workers_in_new_bodies) + " worker threads execute user work that started under max_allowed_parallelism " + std::to_string(g_cur_limit) +
+                 " (the limit was lowered from " + std::to_string(P.L) + " and the recalled workers had the time to leave)");
+    }
     if (worker && first_body) {
         ++g_worker_bodies;
         ++g_workers_in_bodies;
@@ -193,6 +206,7 @@ template <class F> static void body(long region, F&& f) {
     verif::note("body", (uint64_t)region, (uint64_t)(aid + 1));
     f();
     if (worker && first_body) --g_workers_in_bodies;
+    if (worker && first_body && g_cur_limit >= 2 && my_epoch == g_budget_epoch) --g_workers_in_new_bodies;
     --g.body_depth;
     if (--g.depth[a] == 0) { g_idx[a].erase(idx); g.depth.erase(a); }
     g.regions.pop_back();
@@ -442,7 +456,9 @@ static void exec_stmt(Node* n, Ctx c) {
     } else if (op == "ifthread") {
         if (verif::self() == (int)arg(0)) run_block(n->kids, c);
     } else if (op == "waitenq") {
-        while (g_pending > 0) _mm_pause();
+        // (the atomic load makes this a spin loop the controlled scheduler can park: with the spinner parked, the idle rounds let a worker
+        // whose own back-off loop was parked re-run it and progress)
+        while (g_pending > 0) { (void)g_ev[MAXV - 1].load(); _mm_pause(); }
     } else if (op == "spinmand") {
         arena* a = A_[arg(0)].ta->my_arena.load(std::memory_order_relaxed);
         while (a->my_mandatory_concurrency.test() != (arg(1) != 0)) _mm_pause();
@@ -471,6 +487,22 @@ static void exec_stmt(Node* n, Ctx c) {
         tbb::task_arena* ta = A_[A].ta;
         A_[A].ta = nullptr;
         delete ta;
+    } else if (op == "lim") {
+        // lim N A K { .. }: lower max_allowed_parallelism to N for the block.  The block (and the BUDGET monitor for N) starts once the recall
+        // has had time to take effect: arena A has at most N-1 active workers, or its backlog of enqueued tasks has drained to K (a recalled
+        // worker with an empty task pool must leave at once although the arena still has work: the first condition comes true long before
+        // the second on a correct library)
+        int N = (int)arg(0), A = (int)arg(1); long K = arg(2);
+        tbb::global_control gc(tbb::global_control::max_allowed_parallelism, (size_t)N);
+        arena* a = A_[A].ta->my_arena.load(std::memory_order_relaxed);
+        while ((int)a->num_workers_active() > N - 1 && g_pending > K) _mm_pause();
+        verif::note("lim_settled", (uint64_t)a->num_workers_active(), (uint64_t)g_pending);
+        g_cur_limit = N; ++g_budget_epoch; g_workers_in_new_bodies = 0;
+        run_block(n->kids, c);
+        g_cur_limit = 0; ++g_budget_epoch; g_workers_in_new_bodies = 0;
+    } else if (op == "spinworkers") {
+        arena* a = A_[arg(0)].ta->my_arena.load(std::memory_order_relaxed);
+        while ((long)a->num_workers_active() < arg(1)) _mm_pause();
     } else if (op == "work") {
         g_ev[MAXV - 1].fetch_add(1); g_ev[MAXV - 1].fetch_sub(1);
     } else {
@@ -1024,6 +1056,7 @@ int main(int argc, char** argv) {
                      " pool_state=" + std::to_string((int)a->my_pool_state.test()) + " slots:";
             for (unsigned k = 0; k < a->my_num_slots; ++k) where += " [" + std::to_string((int)a->my_slots[k].my_is_occupied.load()) + " h" + std::to_string((long)a->my_slots[k].head.load()) + " t" + std::to_string((long)a->my_slots[k].tail.load()) + "]";
         }
+        if (getenv("RT_TAIL")) { size_t n0 = r.log.size() > 400 ? r.log.size() - 400 : 0; for (size_t i = n0; i < r.log.size(); ++i) printf("tail %s\n", verif::format_event(r.log[i]).c_str()); }
         viol("LIVELOCK the run did not finish within " + std::to_string(MAX_STEPS) + " scheduling points (pending enqueued tasks " + std::to_string(g_pending) + ";" + where + ")");
     }
     else if (r.deadlock) {
